@@ -534,6 +534,12 @@ def run(rng: Rng, tier: str, index: int) -> RunResult:
     if index % 8 == 0:
         for v in history_leak(node, res, tr):
             res.violation(ID, v[0], v[1], {"history": v[2]})
+    if index % 8 == 1:
+        for v in any_mode_other_recipient(node, res, tr):
+            res.violation(ID, v[0], v[1], {"any2": v[2]})
+    if index % 8 == 2:
+        for v in both_arguments_history(node, res, tr):
+            res.violation(ID, v[0], v[1], {"both": v[2]})
     res.stats["cells_total"] = len(cells())
     res.events = tr.n
     res.digest = tr.digest()
@@ -599,6 +605,99 @@ def history_leak(node: Node, res=None, tr=None, only=None) -> list:
     return out
 
 
+def any_mode_other_recipient(node: Node, res=None, tr=None, only=None) -> list:
+    """any-recipient mode (verify_all_recipients=False), general JSON, two recipients: the header of the recipient that is NOT ours is
+    invalid; the token's JOSE headers are checked all the same"""
+    from joserfc import jwe
+    from joserfc.jwe import JWERegistry
+    out = []
+    other = K.make_oct(Rng("c15-other-recipient"), 16)
+    _, mine, _ = node.jwe_key("A128KW")
+    for param in ("kid", "typ", "x5c", "crit", "jku", "zzz"):
+        for vname, value in VALUES:
+            for strict in (True, False):
+                spec = [param, vname, strict]
+                if only is not None and spec != only:
+                    continue
+                rh2 = {"alg": "A128KW", param: copy.deepcopy(value)}
+                merged = {"enc": "A128GCM", **rh2}
+                ok = header_ok(merged, "jwe", "consume", "A128KW", strict, "none", False)
+                if ok is None:
+                    continue
+                try:
+                    bt = rjwe.build("general", {"enc": "A128GCM"}, b"any2", [rjwe.Rcpt("A128KW", node.oct16, {"alg": "A128KW", "kid": "mine"}),
+                                                                           rjwe.Rcpt("A128KW", other, rh2)], Rng("c15-any2"))
+                except Exception:
+                    continue
+                reg = JWERegistry(algorithms=JW.ALLOW_ALL, strict_check_header=strict, verify_all_recipients=False)
+                try:
+                    got = jwe.decrypt_json(copy.deepcopy(bt.ser), mine, registry=reg).plaintext
+                    status = "ok"
+                except Exception as e:
+                    got, status = e, "exc"
+                if res is not None:
+                    res.case("any2", param, vname, strict)
+                    res.fired("consume:any-recipient-mode:other-recipient-header")
+                    tr.add("any2", param, vname, strict, status)
+                if not ok and status == "ok":
+                    out.append(("jwe.decrypt_json.any-recipient:%s:accepted-invalid-header:%s" % (param, vname),
+                                "general JSON JWE decrypted in any-recipient mode although the other recipient's header carries %s=%r (strict=%s)" % (param, value, strict), spec))
+                elif ok and status == "exc":
+                    out.append(("jwe.decrypt_json.any-recipient:%s:refused-valid-header:%s" % (param, type(got).__name__),
+                                "a valid second recipient header (%s=%r, strict=%s) made decryption fail: %s" % (param, value, strict, str(got)[:80]), spec))
+    return out
+
+
+def both_arguments_history(node: Node, res=None, tr=None) -> list:
+    """algorithms= beside registry=: the list applies, the header rules are those of *this* registry - also when registries are
+    created per call (object addresses get re-used) or reconfigured between calls"""
+    from joserfc import jws
+    from joserfc.jws import JWSRegistry
+    from joserfc.registry import HeaderParameter
+    out = []
+    A = ["HS256"]
+    payload = b"both"
+    configs = [("strict", dict(strict_check_header=True)), ("lenient", dict(strict_check_header=False)),
+               ("zzz-int", dict(header_registry={"zzz": HeaderParameter("Z", "int")})),
+               ("zzz-required", dict(header_registry={"zzz": HeaderParameter("Z", "int", True)}))]
+    headers = [("plain", {"alg": "HS256"}), ("unknown", {"alg": "HS256", "unk": 1}), ("zzz-int", {"alg": "HS256", "zzz": 5}), ("zzz-str", {"alg": "HS256", "zzz": "five"})]
+
+    def expect(cfg, hname):
+        if hname == "plain":
+            return cfg != "zzz-required"
+        if hname == "unknown":
+            return cfg == "lenient"
+        if hname == "zzz-int":
+            return cfg in ("lenient", "zzz-int", "zzz-required")
+        return cfg == "lenient"
+    order = Rng("c15-both").sample([(c, h) for c in configs for h in headers] * 3, 48)
+    long_lived = JWSRegistry(strict_check_header=True)
+    for i, ((cname, ckw), (hname, hdr)) in enumerate(order):
+        if i % 4 == 3:
+            # a long-lived registry reconfigured between calls
+            long_lived.strict_check_header = (cname == "strict")
+            reg, cname_eff = long_lived, ("strict" if cname == "strict" else "lenient")
+        else:
+            reg, cname_eff = JWSRegistry(**ckw), cname        # built for this call, dropped afterwards
+        want = expect(cname_eff, hname)
+        try:
+            tok = jws.serialize_compact(dict(hdr), payload, node.joct, algorithms=A, registry=reg)
+            jws.deserialize_compact(tok, node.joct, algorithms=A, registry=reg)
+            status = True
+        except Exception as e:
+            status = False
+        if res is not None:
+            res.case("both", i, cname_eff, hname)
+            res.fired("produce:algorithms-beside-registry")
+            tr.add("both", i, cname_eff, hname, status)
+        if status != want:
+            out.append(("both-arguments:%s:%s:%s" % (cname_eff, hname, "accepted-invalid-header" if status else "refused-valid-header"),
+                        "call %d with algorithms= beside a %s registry and header %r was %s" % (i, cname_eff, hdr, "accepted" if status else "refused"), [i, cname_eff, hname]))
+            break
+        del reg
+    return out
+
+
 def evidence_extra(out):
     return {"cell_space": int(out.stats.get("cells_total", 0) / max(1, out.runs)), "exhaustive": out.exhaustive_sweeps == out.runs and out.runs == SLICES}
 
@@ -607,6 +706,10 @@ def replay(repro: dict):
     node = Node(Rng("replay"))
     if "history" in repro:
         return [(v[0], v[1]) for v in history_leak(node, only=repro["history"])]
+    if "any2" in repro:
+        return [(v[0], v[1]) for v in any_mode_other_recipient(node, only=repro["any2"])]
+    if "both" in repro:
+        return [(v[0], v[1]) for v in both_arguments_history(node)]
     cell = repro["cell"]
     outcome, merged, family, direction, alg, r7797 = execute(node, cell)
     v = judge(cell, outcome, merged, family, direction, alg, r7797)
